@@ -280,6 +280,7 @@ static uint64_t run_forcebasic(const TinyLP& t, Ctx& c, int variant = 0)
    int st = (int)spx.optimize();
    c.count("forcebasic_solves");
    c.count("forcebasic.status." + std::to_string(st));
+   if(getenv("VX_DEBUG")) printf("DEBUG forcebasic variant=%d status=%d hasBasis=%d\n", variant, st, (int)spx.hasBasis());
    if(st != 1 || !spx.hasBasis()) return st;
    int n = x.n, m = x.m;
    std::vector<SPxSolver::VarStatus> rs(m + 1), cs(n + 1);
@@ -290,6 +291,7 @@ static uint64_t run_forcebasic(const TinyLP& t, Ctx& c, int variant = 0)
    for(int j = 0; j < n; ++j) { bs.stat[j] = (int)cs[j]; if(cs[j] == SPxSolver::BASIC) basic.push_back(j); }
    for(int i = 0; i < m; ++i) { bs.stat[n + i] = (int)rs[i]; if(rs[i] == SPxSolver::BASIC) basic.push_back(n + i); }
    std::string cstr = t.str() + "#fb:" + std::to_string(variant);
+   if(getenv("VX_DEBUG")) printf("DEBUG rows %s cols %s\n", stat_str(rs).c_str(), stat_str(cs).c_str());
    const std::string tag = FBTAG[variant & 3];
    if((int)basic.size() != m) { c.violation("forcebasic:basis-count" + tag, cstr, ""); return st; }
    if(!basic_solution(x, basic, bs)) { c.violation("forcebasic:singular-basis" + tag, cstr, ""); return st; }
@@ -300,6 +302,25 @@ static uint64_t run_forcebasic(const TinyLP& t, Ctx& c, int variant = 0)
    {
       Q got(px[j].backend().data());
       got.canonicalize();
+      if(got != bs.x[j])
+      {
+         // is the returned point the basic solution of the same basic set with some nonbasic boxed variables at their other bound? then the defect is a status, not the point
+         std::vector<int> boxed;
+         for(int k = 0; k < n + m; ++k) if(bs.stat[k] != V_BASIC && x.vlo(k).fin() && x.vup(k).fin() && x.vlo(k).v != x.vup(k).v) boxed.push_back(k);
+         bool flipped = false;
+         for(unsigned mask = 1; !flipped && boxed.size() <= 6 && mask < (1u << boxed.size()); ++mask)
+         {
+            BasicSol b2;
+            b2.stat = bs.stat;
+            for(int k : basic) b2.stat[k] = V_BASIC;
+            for(size_t q = 0; q < boxed.size(); ++q) if((mask >> q) & 1) b2.stat[boxed[q]] = (bs.stat[boxed[q]] == V_ON_UPPER) ? V_ON_LOWER : V_ON_UPPER;
+            if(!basic_solution(x, basic, b2)) continue;
+            bool same = true;
+            for(int jj = 0; same && jj < n; ++jj) { Q g(px[jj].backend().data()); g.canonicalize(); same = (g == b2.x[jj]); }
+            flipped = same;
+         }
+         if(flipped) { c.violation("forcebasic:nonbasic-status-at-the-wrong-bound" + tag, cstr, "the returned primal is the basic solution of the returned basic set, but with a boxed nonbasic variable at its other bound: rows " + stat_str(rs) + " cols " + stat_str(cs)); return st; }
+      }
       if(got != bs.x[j]) { c.violation("forcebasic:primal-not-basic-solution" + tag, cstr, "x" + std::to_string(j) + " = " + got.get_str() + " but the basis gives " + bs.x[j].get_str() + " rows " + stat_str(rs) + " cols " + stat_str(cs)); return st; }
    }
    for(int i = 0; i < m; ++i)
@@ -378,6 +399,20 @@ int main(int argc, char** argv)
       while(raw < lim && !fs.get(raw, t)) ++raw;
       return t.str() + "#fb:" + std::to_string(sub & 3);
    }, o, [&](uint64_t, uint64_t sub) { return std::string("@forcebasic") + FBTAG[sub & 3]; });
+   // the equality transformation replaces every ranged row by an equation with a boxed slack column and maps the slack's status back afterwards: every LP of Q with a
+   // ranged row, eqtrans on, simplifier on and off
+   rep.phase("FORCEBASIC + eqtrans on every LP of Q with a ranged row", fs.total / (thorough ? 1 : 2), [&](uint64_t idx, int, Ctx & c) -> uint64_t
+   {
+      TinyLP t;
+      if(!fs.get(idx * (thorough ? 1 : 2), t)) return 0;
+      bool ranged = false;
+      for(int i = 0; i < t.m; ++i) ranged |= (t.lhs[i] > -INF && t.rhs[i] < INF && t.lhs[i] < t.rhs[i]);
+      if(!ranged) return 0;
+      uint64_t h = 0;
+      for(int v : {1, 3}) { set_sub(v); h = h * 7 + run_forcebasic(t, c, v); }
+      return h;
+   }, [&](uint64_t idx, uint64_t sub) { TinyLP t; fs.get(idx * (thorough ? 1 : 2), t); return t.str() + "#fb:" + std::to_string(sub & 3); }, o,
+   [&](uint64_t, uint64_t sub) { return std::string("@forcebasic") + FBTAG[sub & 3]; });
    auto& C = rep.all.counters;
    rep.evaluations = C["lp_x_cfg"] + C["iterlimit_solves"] + C["setbasis_calls"] + C["modifications"] + C["forcebasic_solves"];
    rep.rule = "a history = (LP, parameter vector) followed by one of: unlimited solve; solve with ITERLIMIT j for every j below the unlimited iteration count; "
